@@ -142,7 +142,13 @@ function genC16(mods, SPC, index) {
   // a small working set of parsers, so that repetitions and shared types actually happen
   const work = rng.shuffle([...mod.names]).slice(0, rng.range(1, Math.min(10, mod.names.length)));
   for (let i = 0; i < nops; i++) {
-    if (rng.chance(1, 8)) ops.push({ op: "export" });
+    if (rng.chance(1, 8)) {
+      // the caller keeps what it is handed; sometimes it also edits its copy (drops an entry, adds
+      // one of its own), as a document assembled from several sources would
+      const o = { op: "export" };
+      if (rng.chance(1, 3)) o.edit = rng.pick(["delete", "add", "clear"]);
+      ops.push(o);
+    }
     else if (rng.chance(1, 8)) ops.push({ op: "flat", parser: rng.pick(work) });
     else ops.push({ op: "print", parser: rng.pick(work) });
   }
@@ -178,13 +184,29 @@ async function execC16(mods, SPC, run) {
   out.pristine = usePristine;
   const ctx = mkctx(SPC, mod, cfg);
   const returned = [];
+  const held = [];
   const printedOk = new Set();
   const watch = new Set(namesOfModule(SPC, base));
   for (let i = 0; i < run.ops.length; i++) {
     const op = run.ops[i];
     if (op.op === "export") {
       out.exports++;
-      ctx.exportDefinitions();
+      const raw = ctx.exportDefinitions();
+      const d = cfg.definitionContainerKey == null ? raw : raw[cfg.definitionContainerKey];
+      if (op.edit && d && typeof d === "object") {
+        // caller-side edits of ITS copy: never visible to the context
+        const ks = Object.keys(d).sort();
+        if (op.edit === "delete" && ks.length) delete d[ks[i % ks.length]];
+        else if (op.edit === "clear") for (const k of ks) delete d[k];
+        else if (op.edit === "add") {
+          const pool = [...watch].sort();
+          const k = pool.length ? pool[i % pool.length] : "CallerOwned";
+          if (!(k in d)) d[k] = { description: "placeholder written by the caller" };
+        }
+        out.exportEdits = (out.exportEdits || 0) + 1;
+      }
+      // what the caller holds must not change under it when more is printed later
+      held.push({ at: i, raw, cs: canon(raw) });
       continue;
     }
     const P = mod.P[op.parser];
@@ -241,6 +263,12 @@ async function execC16(mods, SPC, run) {
         viol("definition-left-in-progress-after-call", { op_index: i, parser: op.parser, name: k, call_threw: !res.ok });
         break;
       }
+    }
+  }
+  for (const h of held) {
+    if (canon(h.raw) !== h.cs) {
+      viol("held-export-changed-by-later-calls", { exported_at_op: h.at, then: h.cs, now: canon(h.raw) });
+      break;
     }
   }
   const D = defsOf(ctx, cfg);
